@@ -50,7 +50,10 @@ ANCHOR_FIXTURE = (
     + "".join(f"    generic :: operator({o}) => b{n}\n" for o, n in OPS) + "    generic :: assignment(=) => basg\n  end type vecq\n"
     + "".join(f"  interface operator({o})\n    module procedure i{n}\n  end interface\n" for o, n in OPS)
     + "  interface assignment(=)\n    module procedure iasg\n  end interface\n"
-    + "  interface vecq\n    module procedure make_vecq\n  end interface\ncontains\n"
+    + "  interface vecq\n    module procedure make_vecq\n  end interface\n"
+    # a generic interface with two explicit interface bodies (external procedures): two items on the interface's page
+    + "  interface axpyq\n    subroutine saxpyq(x)\n      real :: x\n    end subroutine saxpyq\n"
+      "    subroutine daxpyq(x)\n      double precision :: x\n    end subroutine daxpyq\n  end interface axpyq\ncontains\n"
     + "".join(f"  function b{n}(p, q) result(r)\n    class(vecq), intent(in) :: p\n    integer, intent(in) :: q\n    {'logical' if n in ('eq', 'lt', 'le') else 'integer'} :: r\n"
               f"    r = {'p%x ' + o + ' q'}\n  end function b{n}\n" for o, n in OPS)
     + "  subroutine basg(p, q)\n    class(vecq), intent(out) :: p\n    integer, intent(in) :: q\n    p%x = q\n  end subroutine basg\n"
@@ -62,7 +65,7 @@ ANCHOR_FIXTURE = (
 
 def render(ents):
     """ents: list of {dir, raw}.  Returns (files, expected entity descriptors)."""
-    files = {"zz_anchorfix.f90": ANCHOR_FIXTURE}
+    files = {"zz_anchorfix.f90": ANCHOR_FIXTURE, "zz_limits.inc": "! a non-Fortran file documented through extra_filetypes\n#define NMAX 10\n"}
     expect = []
     seen_module_io = False
     seen_program = set()
@@ -184,7 +187,7 @@ def evaluate(case):
     REC.clear(); FIRST.clear(); LOGGED.clear(); SEEN_CALLS[0] = 0
     with fordrun.tempdir() as d:
         fordrun.write_files(os.path.join(d, "src"), files)
-        ok, out, err = site.run_inproc(d, {"incl_src": True, "display": ["public", "private", "protected"], "search": False})
+        ok, out, err = site.run_inproc(d, {"incl_src": True, "display": ["public", "private", "protected"], "search": False, "extra_filetypes": "inc !"})
         events = list(REC)
         if not ok:
             return {"problems": [{"kind": "ford-failed", "detail": f"{type(err).__name__}: {err}"}], "events": events, "files": files, "src_collision": False}
@@ -226,7 +229,7 @@ def evaluate(case):
         # (4) copied sources
         src_collision = False
         byname = collections.defaultdict(list)
-        for f in project.files:
+        for f in project.allfiles:           # Fortran sources and the files of the extra file types
             byname[f.name].append(f)
         for name, fl in byname.items():
             copy = os.path.join(outdir, "src", name)
